@@ -171,6 +171,12 @@ func (c Cap) InteriorIntersects(other Cap) bool {
 	if c.radius <= 0 || other.IsEmpty() {
 		return false
 	}
+	// ChordAngle.Add clamps at 180 degrees, which is also the largest possible
+	// distance between the centers. When one cap is full, or the radii sum
+	// to more than 180 degrees, the interiors always intersect.
+	if c.IsFull() || other.IsFull() || float64(c.radius)+float64(other.radius) > float64(s1.StraightChordAngle) {
+		return true
+	}
 
 	return c.radius.Add(other.radius) > ChordAngleBetweenPoints(c.center, other.center)
 }
